@@ -15,6 +15,7 @@ import (
 	"reflect"
 	"time"
 
+	"github.com/BurntSushi/toml"
 	"github.com/drand/drand/v2/common"
 	pubchain "github.com/drand/drand/v2/common/chain"
 	"github.com/drand/drand/v2/common/key"
@@ -319,5 +320,62 @@ func (e *daemonEngine) rtReload(n *dNode, id string) {
 	}
 	if d := shareDiff(ws, sh); d != "" {
 		e.rec.Violate("C20", "reload-differs", "share/"+headOf(d), "node %s restarted: the share it loaded differs from the one it wrote: %s", n.addr, d)
+	}
+}
+
+// rtTamper: the group a run produced, re-encoded with a threshold outside [n/2+1, n] or with a scheme
+// nobody knows (what a damaged or edited file / a hostile peer would present), must be refused by
+// both decoders.
+func (e *daemonEngine) rtTamper(n *dNode, g *key.Group) {
+	if g == nil || g.PublicKey == nil {
+		return
+	}
+	nn := len(g.Nodes)
+	bad := []int{0, nn / 2, nn + 1}
+	if nn/2 >= 1 {
+		bad = append(bad, 1)
+	}
+	decodeTOML := func(gt *key.GroupTOML) error {
+		var buf bytes.Buffer
+		if err := toml.NewEncoder(&buf).Encode(gt); err != nil {
+			return err
+		}
+		ng := new(key.Group)
+		tv := ng.TOMLValue()
+		if _, err := toml.Decode(buf.String(), tv); err != nil {
+			return err
+		}
+		return ng.FromTOML(tv)
+	}
+	// positive control: the untouched encodings decode
+	if err := decodeTOML(g.TOML().(*key.GroupTOML)); err != nil {
+		e.rec.Violate("C20", "written-value-not-readable", "group toml", "node %s: its own group does not decode from TOML: %v", n.addr, err)
+		return
+	}
+	e.rec.Count("probe:c20_tampered_groups_presented", 1)
+	for _, thr := range bad {
+		if thr > nn/2 && thr <= nn {
+			continue
+		}
+		gt := g.TOML().(*key.GroupTOML)
+		gt.Threshold = thr
+		if err := decodeTOML(gt); err == nil {
+			e.rec.Violate("C20", "out-of-range-encoding-accepted", "group toml/threshold", "a group file of %d nodes with threshold %d is accepted", nn, thr)
+		}
+		pk := g.ToProto(common.GetAppVersion())
+		pk.Threshold = uint32(thr)
+		if _, err := key.GroupFromProto(pk, nil); err == nil {
+			e.rec.Violate("C20", "out-of-range-encoding-accepted", "group packet/threshold", "a group packet of %d nodes with threshold %d is accepted", nn, thr)
+		}
+	}
+	gt := g.TOML().(*key.GroupTOML)
+	gt.SchemeID = "pedersen-bls-unheard-of"
+	if err := decodeTOML(gt); err == nil {
+		e.rec.Violate("C20", "out-of-range-encoding-accepted", "group toml/scheme", "a group file naming an unknown scheme is accepted")
+	}
+	pk := g.ToProto(common.GetAppVersion())
+	pk.SchemeID = "pedersen-bls-unheard-of"
+	if _, err := key.GroupFromProto(pk, nil); err == nil {
+		e.rec.Violate("C20", "out-of-range-encoding-accepted", "group packet/scheme", "a group packet naming an unknown scheme is accepted")
 	}
 }
